@@ -40,6 +40,7 @@ def run(tier, seed):
     J.sort(key=lambda j: -(sum(j[1]) + 1) ** len(j[1]))
     rep = common.pmap(wave.kernel_job, J, chunksize=1)
     rep.merge(common.pmap(wsim.e2e_job, wsim.e2e_jobs(tier, seed, {'STA'}, light=True), chunksize=1))
+    rep.merge(common.pmap(wsim.glue_job, wsim.glue_jobs(tier, seed), chunksize=4))          # schedule / memory-map obligations the induction relies on
     # reachability twin: MONO must fail when delays are allowed to depend on polarity (known: polarity-dependent delays can reorder)
     tw = wave.kernel_job(('XOR2', (2, 2), (0, 0), 16, None, False, frozenset({'WF', 'TWINMONO'})))
     if not tw.counts['twin_refuted']: rep.error('reachability twin failed: monotonicity without the polarity-independence assumption was not refuted')
@@ -57,6 +58,6 @@ def run(tier, seed):
 
 
 def replay(data):
-    if data.get('mode') in ('boundary', 'e2e'): return wsim.replay(data)
+    if data.get('mode') in ('boundary', 'e2e', 'glue'): return wsim.replay(data)
     prob = wave.concrete_lemma(data)
     return bool(prob), str(prob)
